@@ -488,6 +488,20 @@ fn ieee802154_seeds(cfg: Cfg, l: &Learned) -> Vec<Seed> {
         let effect = effect && frame.len() <= 127;
         v.push(Seed { name, frame, l4, hot: None, expect_effect: effect });
     };
+    let compact = |p: &[u8]| {
+        let ll = |a: &[u8]| a[0] == 0xfe && a[1] == 0x80 && a[2..8] == [0; 6];
+        let d = &p[24..40];
+        let dam = if ll(d) {
+            Am::Iid64
+        } else if d[0] == 0xff && d[1] == 2 && d[2..15] == [0; 13] {
+            Am::M8
+        } else if d[0] == 0xff && d[2..11] == [0; 9] {
+            Am::M48
+        } else {
+            Am::Full
+        };
+        Iphc { tf: 3, hlim: 2, sam: if ll(&p[8..24]) { Am::Iid64 } else { Am::Full }, dam }
+    };
     let auto = |p: &[u8]| {
         let ll = |a: &[u8]| a[0] == 0xfe && a[1] == 0x80 && a[2..8] == [0; 6];
         Iphc { tf: 3, hlim: 2, sam: if ll(&p[8..24]) { Am::Iid64 } else { Am::Full }, dam: if ll(&p[24..40]) { Am::Iid64 } else { Am::Full } }
@@ -496,8 +510,12 @@ fn ieee802154_seeds(cfg: Cfg, l: &Learned) -> Vec<Seed> {
     // IIDs for link-local unicast pairs), hop-by-hop packets additionally through NHC
     for sd in v6_seeds(cfg, l) {
         let p = &sd.pkt;
-        let ll_pair = p[8] == 0xfe && p[9] == 0x80 && p[24] == 0xfe && p[25] == 0x80;
-        let st = if ll_pair && sd.name.len() % 2 == 0 { inline64 } else { full };
+        // alternate between "everything inline" and the most compact stateless form; frames
+        // that would not fit 127 octets inline get the compact form
+        let mut st = if sd.name.len() % 2 == 0 { compact(p) } else { full };
+        if lowpan(&mac, &st, p, Comp::Inline).0.len() > 127 {
+            st = compact(p);
+        }
         // smoltcp decompresses only TCP / UDP / ICMPv6 as *uncompressed* next headers; extension
         // headers must come as LOWPAN_NHC
         add(&mut v, format!("6lo/{}", sd.name), lowpan(&mac, &st, p, Comp::Inline), sd.effect && matches!(p[6], 6 | 17 | 58));
@@ -659,9 +677,22 @@ fn ieee802154_seeds(cfg: Cfg, l: &Learned) -> Vec<Seed> {
 }
 
 pub fn catalogue(cfg: Cfg, l: &Learned) -> Vec<Seed> {
-    match cfg.medium {
+    let mut v = match cfg.medium {
         Medium::Ethernet => ethernet_seeds(cfg, l),
         Medium::Ip => ip_medium_seeds(cfg, l),
         Medium::Ieee802154 => ieee802154_seeds(cfg, l),
+    };
+    if cfg.medium == Medium::Ieee802154 {
+        // the device MTU is 127 octets: longer frames are outside the quantified domain
+        v.retain(|sd| sd.frame.len() <= 127);
     }
+    // option / record areas that lie beyond the first 96 bytes are mutated as well: all of an
+    // 802.15.4 frame (<= 127 octets), and the tails of NDISC and DNS messages
+    for sd in v.iter_mut() {
+        let tail = cfg.medium == Medium::Ieee802154 || sd.name.contains("ndisc/") || sd.name.contains("dns/");
+        if sd.hot.is_none() && tail && sd.frame.len() > 96 {
+            sd.hot = Some(96..sd.frame.len().min(160));
+        }
+    }
+    v
 }
